@@ -523,3 +523,71 @@ func (c *Ctx) perBlockReset(rule string) {
 	}
 	r.Floor(rule, "per-block accumulator fields of transaction executors", n, 2)
 }
+
+// regionOf: fn, its closures, and the helpers of fn's own package that it calls statically (depth levels) - where an
+// "extract method" refactoring moves code of an anchored function. via is the call in the parent that leads there.
+func (c *Ctx) regionOf(fn *ssa.Function, depth int) []regionFn {
+	var out []regionFn
+	if fn == nil {
+		return nil
+	}
+	seen := map[*ssa.Function]bool{}
+	var walk func(f *ssa.Function, via ssa.CallInstruction, d int)
+	walk = func(f *ssa.Function, via ssa.CallInstruction, d int) {
+		if seen[f] || len(f.Blocks) == 0 {
+			return
+		}
+		seen[f] = true
+		for _, cf := range core.WithClosures(f) {
+			out = append(out, regionFn{cf, via})
+			if d >= depth {
+				continue
+			}
+			for _, call := range core.Calls(cf) {
+				g := core.StaticCallee(call)
+				if g == nil || core.PkgOf(g) != core.PkgOf(fn) || !c.P.InModule(g) || g.Parent() != nil {
+					continue
+				}
+				walk(g, call, d+1)
+			}
+		}
+	}
+	walk(fn, nil, 0)
+	return out
+}
+
+// onlyCalledFrom: every static call site of g (an unexported helper) lies in one of the allowed functions or in a
+// helper for which the same holds (three levels) - g is then part of the allowed functions' bookkeeping.
+func (c *Ctx) onlyCalledFrom(g *ssa.Function, allowed func(*ssa.Function) bool) bool {
+	callers := map[*ssa.Function][]*ssa.Function{}
+	for _, fn := range c.P.ModuleFuncs(true) {
+		if core.PkgOf(fn) != core.PkgOf(g) {
+			continue
+		}
+		top := fn
+		for top.Parent() != nil {
+			top = top.Parent()
+		}
+		for _, call := range core.Calls(fn) {
+			if h := core.StaticCallee(call); h != nil {
+				callers[h] = append(callers[h], top)
+			}
+		}
+	}
+	var ok func(f *ssa.Function, d int) bool
+	ok = func(f *ssa.Function, d int) bool {
+		if allowed(f) {
+			return true
+		}
+		if d > 3 || len(callers[f]) == 0 || token.IsExported(f.Name()) {
+			return false
+		}
+		for _, cl := range callers[f] {
+			if cl != f && !ok(cl, d+1) {
+				return false
+			}
+		}
+		return true
+	}
+	return ok(g, 0)
+}
